@@ -25,6 +25,9 @@ def make_specs(ctx: Ctx, n):
     for i in range(n):
         label, prof = PROFILES[i % len(PROFILES)]
         m = gen.rand_model(rng, prof)
+        if i % 5 == 3:
+            m["meta"]["mark_call"] = True
+            label += "; decorator called on functions that stay in use"
         na = rng.choice([3, 8, 16])
         int_init = i % 3 == 1
         init = qinit(gen.rand_initial_states(rng, m, na, integer=int_init))
